@@ -58,7 +58,16 @@ RecFromEq(lhs, rhs, C) ==
                  IF rhs.t = "Var" THEN rhs.name :> lhs ELSE EmptyMap) >>
 
 \* primitives.flattened_sum / flattened_product (the "factory")
-IsZeroE(e) == e.t = "Const" /\ e.v.n = 0
+\* primitives.is_zero(e) = not bool(e), with the __bool__ methods of Sum, Product and the
+\* quotient classes (everything else is true); is_zero(e - 1) can only hold for a number
+RECURSIVE TruthE(_)
+TruthE(e) ==
+    CASE e.t = "Const" -> e.v.n # 0
+      [] e.t = "Sum" -> IF Len(e.c) = 1 THEN TruthE(e.c[1]) ELSE TRUE
+      [] e.t = "Product" -> \A i \in 1..Len(e.c) : TruthE(e.c[i])
+      [] e.t \in {"Quotient", "FloorDiv", "Remainder"} -> TruthE(e.a)
+      [] OTHER -> TRUE
+IsZeroE(e) == ~TruthE(e)
 IsOneE(e)  == e.t = "Const" /\ e.v.n = e.v.d
 Factory(kind, items) ==
     LET RECURSIVE Go(_, _)
